@@ -307,6 +307,31 @@ theorem poolMug_rem_pos : ∀ (fuel : Nat) (w : World) (p : Pid) (pl rem : Nat),
           · simp at h; omega
         · simp at h; omega
 
+theorem poolMug_rem_le : ∀ (fuel : Nat) (w : World) (p : Pid) (pl rem : Nat),
+    ∀ r, (poolMug fuel w p pl rem).2 = some r → r ≤ rem := by
+  intro fuel
+  induction fuel with
+  | zero => intro w p pl rem r h; simp [poolMug] at h; omega
+  | succ n ih =>
+    intro w p pl rem r h
+    unfold poolMug at h
+    split at h
+    · simp at h; omega
+    · split at h
+      · simp at h; omega
+      · split at h
+        · split at h
+          · split at h
+            · dsimp only at h
+              split at h
+              · have := ih _ _ _ _ r h
+                omega
+              · simp at h
+            · simp at h; omega
+            · simp at h; omega
+          · simp at h; omega
+        · simp at h; omega
+
 /-- what `poolLoop` does to the `blocked` fields: nothing, or the caller is suspended in a pool frame with a positive
     outstanding claim -/
 theorem poolLoop_frames (w : World) (p : Pid) (pl rem ini : Nat) (pre : Bool) (hrem : 0 < rem) :
